@@ -734,7 +734,7 @@ func c17StopAsync(c *core.Ctx, pkg *packages.Package, trans []c17Transition) {
 	}
 	stmt := stmtOf(fn, sw.call.Expr)
 	t := an.Table{G: g, From: g.Locate(stmt), Atoms: []an.Atom{{Name: "switched", Values: []string{"T", "F"}}},
-		Binder: &an.Binder{Fn: fn, Re: []an.ReRole{an.RE(`^recv\.switchState\(.*\)#0$`, "SWITCHED")}, Bool: map[string]string{"SWITCHED": "switched"}},
+		Binder:  &an.Binder{Fn: fn, Re: []an.ReRole{an.RE(`^recv\.switchState\(.*\)#0$`, "SWITCHED")}, Bool: map[string]string{"SWITCHED": "switched"}},
 		Targets: []an.Loc{g.Locate(cancel)}, Names: []string{"serviceCancel()"},
 		Want: func(r an.Row, _ int) an.Tri { return an.FromBool(r["switched"] == "F") }}
 	res := t.Run()
@@ -781,10 +781,10 @@ func c17FailureWatcher(c *core.Ctx, pkg *packages.Package) {
 	}
 	// sends on the channel anywhere in the package
 	type sendInfo struct {
-		fn       *an.Fn
-		stmt     *ast.SendStmt
+		fn        *an.Fn
+		stmt      *ast.SendStmt
 		droppable bool
-		must     bool
+		must      bool
 	}
 	var sends []sendInfo
 	for _, f := range an.Funcs(pkg) {
